@@ -26,9 +26,13 @@ Monitors: every cycle the raw inputs and all outputs are recorded; the traces ar
 
 Oracle (reference written from the statement and USB 3.2 table 6-30; no luna code):
   the input envelope is segmented into bursts (maximal runs of 1): start s_i, length L_i, period P_i = s_(i+1) - s_i.
-  A measurement v against a window [lo, hi] (real-valued cycles f*t) is IN if lo+2 <= v <= hi-2, OUT if v <= lo-2 or
-  v >= hi+2, otherwise "don't care" (one sampling cycle of an asynchronous edge plus one cycle for the counting
-  convention: the statement does not fix the rounding).
+  A measurement of v cycles at clock f lasts v/f seconds, so the statement's "within the window" is exact in cycles:
+  IN iff ceil(f*t_min) <= v <= floor(f*t_max); OUT iff v < ceil(f*t_min) or v > ceil(f*t_max) (f*t in exact rational
+  arithmetic from the decimal constants of table 6-30).  The only don't-care is the single value v = ceil(f*t_max) when
+  f*t_max is not an integer: the strict reading puts it a fraction of a cycle outside, rounding the limit up to whole
+  cycles (the documented convention of the implementation) puts it inside.  If a window contains no integer at all
+  (sub-cycle windows at scaled clocks, e.g. the ping burst) that one value is IN.  Products closer than 1e-6 to a
+  non-integer boundary are not decided (float rounding of f*t).
   Periodic pattern: the burst start s_(i+1) is an *allowed* report point iff L_(i-1), P_(i-1), L_i, P_i are all not OUT
   (second of two consecutive in-window pairs), *required* iff all four are IN and it is the first such point of an
   unbroken in-window train (later points of the train are allowed: a detector that starts over after a report is also
@@ -36,13 +40,20 @@ Oracle (reference written from the statement and USB 3.2 table 6-30; no luna cod
   allowed iff L_i is not OUT, required iff IN.  Every cycle with `detect` high must be matched (latency 0..8 cycles,
   so the two synchroniser flip-flops and an additional pipeline register are tolerated) to an allowed report point
   that has not been used by an earlier detect cycle; every required report point must be matched.
-  Generator: every burst of `send_signaling` lying inside a span where `generate` is held has |L - f*t_typ| < 2 and
-  consecutive bursts inside such a span are |P - f*T_typ| <= 3 apart; `drive_electrical_idle` is high from a burst
+  Generator: every burst of `send_signaling` lying inside a span where `generate` is held lasts floor(f*t_typ) or
+  ceil(f*t_typ) cycles and consecutive bursts inside such a span are floor(f*T_typ) .. ceil(f*T_typ)+2 cycles apart (one
+  idle cycle between periods and one cycle of float rounding, e.g. 100 MHz * 10e-6 = 1000.0000000000001, are accepted); `drive_electrical_idle` is high from a burst
   start to the next one while `generate` is held and whenever `send_signaling` is; `completed` strobes exactly once
-  per generated period, |offset - f*T_typ| <= 3 after the burst start; a burst starts <= 4 cycles after `generate`
+  per generated period, floor(f*T_typ)-1 .. ceil(f*T_typ)+1 cycles after the burst start; a burst starts <= 4 cycles after `generate`
   rises on an idle generator; nothing is driven once `generate` has been low for more than a period.
 
-Not judged: measurements within 2 cycles of a window edge; the exact detect latency; `cycles_sent`; bursts / periods
+Transceiver: "fast" cases (8..40 MHz or the constructor default 125 MHz) judge `polling_detected` and the generator;
+"slow" cases (300..4000 Hz) feed ping trains and warm-reset bursts and judge `ping_detected` / `reset_detected`
+positively (required reports) as well as negatively.  `LFPSDetector` is built with its default clock when f = 125 MHz.
+The real ping pattern runs at 250 Hz .. 20 kHz: above 6.25 kHz a 1000-fold error of the burst maximum, above 25 kHz of
+the burst minimum changes the cycle thresholds and is seen.
+
+Not judged: the value ceil(f*t_max) described above; the exact detect latency; `cycles_sent`; bursts / periods
 of the generator during which `generate` changes; the real ping burst window (sub-cycle at any clock at which two
 ping periods can be simulated) beyond "3 or more cycles is too long"; true asynchronous sampling (the envelope is
 driven synchronously, so the synchroniser is a pure delay).
@@ -54,11 +65,11 @@ pattern) or exactly one cycle after the repeat maximum behind an accepted burst 
 not part of the oracle); every other missing report is `detect_missing_periodic` / `detect_missing_oneshot`.  At most
 three such violations are recorded per case, after all others.
 
-Deviation from DESIGN section 7: the don't-care band is +-2 cycles instead of +-3 (tighter, still sound for the
-rounding choices ceil/floor and count-from-0/1), and synthetic patterns were added because the real ping/reset
+Deviation from DESIGN section 7: window edges are judged exactly (see above) instead of with a +-3 cycle band, and synthetic patterns were added because the real ping/reset
 constants leave one of the two windows degenerate at any clock that can be simulated.
 """
 import math
+from fractions import Fraction
 
 from rv.sim import Bench
 
@@ -71,27 +82,30 @@ RULE = ("case = wrapper with 3 LFPSDetectors (polling|synthetic periodic, ping|s
         "non-trivial = at least one required and one forbidden report point per detector kind; distinct = hash of configs + scripts")
 REQUIRED_BINS = [
     "cfg_polling_real", "cfg_polling_synth", "cfg_ping_real", "cfg_ping_synth", "cfg_reset_real", "cfg_reset_synth",
-    "cfg_xcvr", "cfg_gen_polling", "cfg_gen_synth",
+    "cfg_xcvr", "cfg_xcvr_fast", "cfg_xcvr_fast_default", "cfg_xcvr_slow", "cfg_default_clock", "cfg_gen_polling", "cfg_gen_synth",
     "per_required", "per_forbidden_burst_short", "per_forbidden_burst_long", "per_forbidden_repeat_short",
     "per_forbidden_repeat_long", "per_forbidden_prev_burst", "per_forbidden_prev_repeat", "per_forbidden_only_prev_bad",
     "per_two_required_in_a_row", "per_dontcare_point",
     "one_required", "one_forbidden_short", "one_forbidden_long", "one_dontcare_point",
     "edge_burst_min", "edge_burst_max", "edge_repeat_min", "edge_repeat_max",
+    "exact_burst_min_minus_1", "exact_burst_min", "exact_burst_max", "exact_burst_max_plus_1",
+    "exact_repeat_min_minus_1", "exact_repeat_min", "exact_repeat_max", "exact_repeat_max_plus_1",
     "dropout_in_burst", "tiny_gap_between_good_bursts", "burst_longer_than_repeat_max", "good_train_right_after_overlong_burst",
     "gen_release_mid_burst", "gen_release_mid_wait", "gen_pulse_1cycle", "gen_reassert_quickly", "gen_held_3_periods",
 ]
 REQUIRED_EVENTS = ["detect_cycles", "detects_matched", "required_points", "forbidden_points", "bursts_in",
                    "gen_bursts_judged", "gen_periods_judged", "gen_completed_strobes", "gen_dei_cycles_checked", "cycles_recorded",
-                   "xcvr_detects_matched"]
+                   "xcvr_polling_detects_matched", "xcvr_ping_detects_matched", "xcvr_reset_detects_matched"]
 ASSUMPTIONS = [
     "time is measured in clock cycles of the block's own ss_clk_frequency parameter, scaled so that windows are 2..3600 cycles",
-    "measurements within 2 cycles of a window edge are not judged (rounding / asynchronous sampling are not fixed by the statement)",
+    "window edges are exact in cycles (ceil(f*t_min) .. floor(f*t_max) in, above ceil(f*t_max) out); only v = ceil(f*t_max) for non-integer f*t_max is not judged",
     "window values are those of USB 3.2 table 6-30 as quoted in the property (ping burst maximum 160 ns is unobservable at simulated clocks)",
     "the envelope is driven synchronously to the ss clock: the two-flip-flop synchroniser acts as a pure delay",
     "detect latency 0..8 cycles after the closing edge of the raw envelope is accepted",
 ]
 
 LAT = 8
+SPEC_TIMES = (0.6e-6, 1.0e-6, 1.4e-6, 6.0e-6, 10.0e-6, 14.0e-6, 40e-9, 160e-9, 160e-3, 200e-3, 240e-3, 80e-3, 100e-3, 120e-3)
 KNOWN_MISSED_START = "burst_start_missed_1_cycle_after_measurement_abandoned"
 IN, DC, OUT_LO, OUT_HI = "in", "dc", "lo", "hi"
 
@@ -101,14 +115,36 @@ SPEC = {
     "ping":    ((40e-9, None, 160e-9), (160e-3, 200e-3, 240e-3)),
     "reset":   ((80e-3, 100e-3, 120e-3), None),
 }
+EPS = Fraction(1, 10 ** 6)      # cycle counts this close to an integer are not decided (float rounding of f*t in any implementation)
+
+
+class Edge(float):
+    """A window edge in cycles (float value for the generators) with the exact integer thresholds derived from it:
+    lower edge: .a = ceil(x - EPS) <= .b = ceil(x + EPS); upper edge: .f = floor(x - EPS) and .c = ceil(x + EPS)."""
+
+
+def exact_edge(f, t):
+    x = Fraction(f) * (Fraction(repr(t)) if t in SPEC_TIMES else Fraction(t))
+    e = Edge(float(x))
+    if x.denominator == 1:
+        e.a = e.b = e.f = e.c = int(x)
+    else:
+        e.a, e.b = math.ceil(x - EPS), math.ceil(x + EPS)
+        e.f, e.c = math.floor(x - EPS), math.ceil(x + EPS)
+    return e
 
 
 def classify(v, lo, hi):
-    if v <= lo - 2:
+    """Exact: a duration of v cycles at clock f lasts v/f seconds.  IN iff t_min <= v/f <= t_max, i.e. ceil(f*t_min) <= v <=
+    floor(f*t_max); OUT iff v < ceil(f*t_min) or v > ceil(f*t_max).  The single value ceil(f*t_max) (when f*t_max is not an
+    integer) is the only don't-care: the statement's reading puts it a fraction of a cycle outside, rounding the window
+    limit up to whole cycles (the convention the implementation documents) puts it inside.  If the window contains no
+    integer at all (sub-cycle windows at scaled clocks) that one value is IN: a window has to accept something."""
+    if v < lo.a:
         return OUT_LO
-    if v >= hi + 2:
+    if v > hi.c:
         return OUT_HI
-    if lo + 2 <= v <= hi - 2:
+    if lo.b <= v <= max(hi.f, lo.b):
         return IN
     return DC
 
@@ -140,7 +176,7 @@ def make_detector_cfg(rng, slot):
             times = ((b_lo / f, (b_lo + b_hi) / 2 / f, b_hi / f), (r_lo / f, (r_lo + r_hi) / 2 / f, r_hi / f))
     elif slot == "B":
         if rng.random() < 0.5:
-            f = jitter_freq(rng, loguniform(rng, 250, 3000))
+            f = jitter_freq(rng, loguniform(rng, 250, 20000))       # above 6.25 kHz / 25 kHz x1000 errors of the burst limits show
             kind, times = "ping_real", SPEC["ping"]
         else:
             f = 1e6
@@ -165,7 +201,7 @@ def make_detector_cfg(rng, slot):
 
 def finish_cfg(kind, f, times):
     b, r = times
-    win = (f * b[0], f * b[2]) + ((f * r[0], f * r[2]) if r else (None, None))
+    win = (exact_edge(f, b[0]), exact_edge(f, b[2])) + ((exact_edge(f, r[0]), exact_edge(f, r[2])) if r else (None, None))
     return {"kind": kind, "f": f, "times": times, "win": win}
 
 
@@ -183,29 +219,30 @@ def luna_pattern(cfg):
 # ----------------------------------------------------------------------------------------- envelope scripts
 
 def draw(rng, lo, hi, kind):
-    """An integer duration of the requested class relative to window [lo, hi] (real-valued cycles)."""
+    """An integer duration of the requested class relative to window [lo, hi] (Edge objects)."""
+    top = max(hi.f, lo.b)
     if kind == "in":
-        a, b = math.ceil(lo + 2), math.floor(hi - 2)
-        if a <= b:
-            r = rng.random()
-            if r < 0.15:
-                return a
-            if r < 0.30:
-                return b
-            return rng.randint(a, b)
-        kind = "edge"
+        r = rng.random()
+        if r < 0.2:
+            return lo.b                               # exactly the smallest in-window value
+        if r < 0.4:
+            return top                                # exactly the largest in-window value
+        return rng.randint(lo.b, top)
     if kind == "edge":
+        r = rng.random()
+        if r < 0.4:
+            return max(1, rng.choice([lo.a - 1, lo.b, hi.c + 1, top, hi.c]))
         e = lo if rng.random() < 0.5 else hi
         return max(1, int(round(e)) + rng.randint(-5, 5))
     if kind == "below":
-        b = math.floor(lo - 2)
-        if rng.random() < 0.3:
-            return max(1, b)                      # the largest value that is definitely too short
+        b = lo.a - 1
+        if rng.random() < 0.4:
+            return max(1, b)                      # the largest value that is too short
         return max(1, rng.randint(max(1, int(0.3 * lo)), max(1, b)))
     if kind == "above":
-        a = math.ceil(hi + 2)
-        if rng.random() < 0.3:
-            return max(1, a)                      # the smallest value that is definitely too long
+        a = hi.c + 1
+        if rng.random() < 0.4:
+            return max(1, a)                      # the smallest value that is too long
         return rng.randint(max(1, a), max(1, a, int(1.5 * hi) + 2))
     if kind == "tiny":
         return rng.randint(1, 3)
@@ -377,6 +414,14 @@ def judge_detector(res, tag, cfg, x, d, deferred, xcvr=False, quiet=False):
             res.bin("edge_%s_min" % name)
         if abs(v - hi) <= 5:
             res.bin("edge_%s_max" % name)
+        if v == lo.a - 1:
+            res.bin("exact_%s_min_minus_1" % name)
+        if v == lo.b:
+            res.bin("exact_%s_min" % name)
+        if v == max(hi.f, lo.b):
+            res.bin("exact_%s_max" % name)
+        if v == hi.c + 1:
+            res.bin("exact_%s_max_plus_1" % name)
 
     if periodic:
         cls = []
@@ -476,7 +521,7 @@ def judge_detector(res, tag, cfg, x, d, deferred, xcvr=False, quiet=False):
             ok[0][3] = True
             res.event("detects_matched")
             if xcvr:
-                res.event("xcvr_detects_matched")
+                res.event("xcvr_%s_detects_matched" % xcvr)
             continue
         used = [p for p in cands if p[1] != "forbidden" and p[3]]
         if used:
@@ -516,10 +561,10 @@ def missed_start_pattern(runs, k, win):
     s1 = runs[k][0]
     gap = s1 - (s0 + L0)
     if r_lo is None:
-        return gap == 1 and L0 <= math.ceil(b_hi)
-    if gap == 1 and L0 < b_lo + 2:
+        return gap == 1 and L0 <= b_hi.c
+    if gap == 1 and L0 < b_lo.b:
         return True
-    return s1 - s0 == math.ceil(r_hi) + 1 and b_lo - 2 < L0 < b_hi + 2
+    return s1 - s0 == r_hi.c + 1 and b_lo.a <= L0 <= b_hi.c
 
 
 # ----------------------------------------------------------------------------------------- generator
@@ -585,7 +630,8 @@ def level_driver(b, sig, script):
 
 def judge_generator(res, tag, f, t_burst, t_repeat, g, s, dei, comp):
     """g/s/dei/comp: per-cycle 0/1 lists (comp may be None)."""
-    fb, fr = f * t_burst, f * t_repeat
+    eb, er = exact_edge(f, t_burst), exact_edge(f, t_repeat)
+    fb, fr = float(eb), float(er)
     n = len(g)
     ctx = "%s[f=%.6g burst=%.2f repeat=%.2f cycles]" % (tag, f, fb, fr)
     # prefix sums of "generate low" to ask "was generate high throughout [a, b]"
@@ -611,14 +657,15 @@ def judge_generator(res, tag, f, t_burst, t_repeat, g, s, dei, comp):
     for i, (st, L) in enumerate(runs):
         if held(st - 1, st + L + 1):
             res.event("gen_bursts_judged")
-            if abs(L - fb) >= 2:
+            if not eb.f <= L <= eb.c:           # the typical length in whole cycles, rounded either way
                 res.violation("generator_burst_length", "%s burst at cycle %d lasts %d cycles" % (ctx, st, L))
         if i + 1 < len(runs):
             nxt = runs[i + 1][0]
             if held(st - 1, nxt + 1):
                 res.event("gen_periods_judged")
                 P = nxt - st
-                if abs(P - fr) > 3:
+                if not er.f <= P <= er.c + 2:   # typical period rounded either way, + one idle cycle between periods, + one
+                    #                             for float rounding of f*t (100 MHz * 10e-6 = 1000.0000000000001)
                     res.violation("generator_repeat_period", "%s bursts at cycles %d and %d are %d cycles apart" % (ctx, st, nxt, P))
                 bad = [t for t in range(st, nxt + 1) if not dei[t]]
                 res.event("gen_dei_cycles_checked", nxt - st + 1)
@@ -659,7 +706,7 @@ def judge_generator(res, tag, f, t_burst, t_repeat, g, s, dei, comp):
             res.violation("generator_completed_count", "%s %d bursts generated but %d completed strobes" % (ctx, len(runs), len(cs)))
         else:
             for (st, L), c in zip(runs, cs):
-                if abs((c - st) - fr) > 3:
+                if not er.f - 1 <= c - st <= er.c + 1:
                     res.violation("generator_completed_position", "%s completed at cycle %d for the period that started at %d" % (ctx, c, st))
                     break
 
@@ -684,12 +731,20 @@ def run_case(rng, tier, res):
         gen_times = ((tb * 0.6 / gen_f, tb / gen_f, tb * 1.4 / gen_f), (tr * 0.6 / gen_f, tr / gen_f, tr * 1.4 / gen_f))
         gen_kind = "gen_synth"
     gen_cfg = finish_cfg(gen_kind, gen_f, gen_times)
-    use_xcvr = rng.random() < 0.2
-    xcvr_f = jitter_freq(rng, loguniform(rng, 8e6, 40e6)) if use_xcvr else None
+    use_xcvr = rng.random() < 0.3
+    # transceiver scale: "fast" = polling scale (8..40 MHz, or the constructor default 125 MHz); "slow" = 300..4000 Hz, where
+    # the ping and warm-reset windows can be reached, so that ping_detected / reset_detected are tested positively
+    xcvr_mode = rng.choice(["fast", "fast_default", "slow", "slow"]) if use_xcvr else None
+    xcvr_f = None
+    if use_xcvr:
+        xcvr_f = {"fast": jitter_freq(rng, loguniform(rng, 8e6, 40e6)), "fast_default": 125e6,
+                  "slow": jitter_freq(rng, loguniform(rng, 300, 4000))}[xcvr_mode]
 
-    dets = {slot: LFPSDetector(luna_pattern(c), c["f"]) for slot, c in cfgs.items()}
+    dets = {slot: (LFPSDetector(luna_pattern(c)) if c["f"] == 125e6 else LFPSDetector(luna_pattern(c), c["f"])) for slot, c in cfgs.items()}
+    if any(c["f"] == 125e6 for c in cfgs.values()):
+        res.bin("cfg_default_clock")
     gen = LFPSGenerator(luna_pattern(gen_cfg), gen_f)
-    xcvr = LFPSTransceiver(ss_clk_freq=xcvr_f) if use_xcvr else None
+    xcvr = (LFPSTransceiver() if xcvr_mode == "fast_default" else LFPSTransceiver(ss_clk_freq=xcvr_f)) if use_xcvr else None
 
     class Wrapper(Elaboratable):
         def elaborate(self, platform):
@@ -721,8 +776,18 @@ def run_case(rng, tier, res):
     b.add_driver(level_driver(b, gen.generate, gscript))
     if use_xcvr:
         xcfg = {k: finish_cfg(k + "_xcvr", xcvr_f, SPEC[k]) for k in ("polling", "ping", "reset")}
-        xscript = periodic_script(rng, xcfg["polling"]["win"], budget)
-        xg, xtags = generate_script(rng, xcvr_f * 1.0e-6, xcvr_f * 10.0e-6, budget)
+        res.bin("cfg_xcvr_" + xcvr_mode)
+        if xcvr_mode == "slow":
+            xscript = []
+            while sum(p for _, p in xscript) < budget:        # alternating ping trains and warm-reset bursts
+                xscript += periodic_script(rng, xcfg["ping"]["win"], budget // 6)
+                xscript += oneshot_script(rng, xcfg["reset"]["win"], budget // 6)
+                L = xscript[-1][0]
+                xscript[-1] = (L, L + int(xcfg["ping"]["win"][3] * 1.3))
+            xg = [(0, 50)]           # the polling generator degenerates to 1-cycle periods at this clock: not driven
+        else:
+            xscript = periodic_script(rng, xcfg["polling"]["win"], budget)
+            xg, xtags = generate_script(rng, xcvr_f * 1.0e-6, xcvr_f * 10.0e-6, budget)
         watch += [xcvr.signaling_received, xcvr.polling_detected, xcvr.ping_detected, xcvr.reset_detected,
                   xcvr.send_polling, xcvr.send_signaling, xcvr.drive_electrical_idle]
         b.add_driver(envelope_driver(b, xcvr.signaling_received, xscript, rng.randint(1, 6)))
@@ -761,11 +826,14 @@ def run_case(rng, tier, res):
                     T(gen.generate), T(gen.send_signaling), T(gen.drive_electrical_idle), T(gen.completed))
     if use_xcvr:
         x = T(xcvr.signaling_received)
-        judge_detector(res, "xcvr.polling", xcfg["polling"], x, T(xcvr.polling_detected), deferred, xcvr=True)
-        judge_detector(res, "xcvr.ping", xcfg["ping"], x, T(xcvr.ping_detected), deferred, quiet=True)
-        judge_detector(res, "xcvr.reset", xcfg["reset"], x, T(xcvr.reset_detected), deferred, quiet=True)
-        judge_generator(res, "xcvr.gen", xcvr_f, 1.0e-6, 10.0e-6, T(xcvr.send_polling), T(xcvr.send_signaling),
-                        T(xcvr.drive_electrical_idle), None)
+        slow = xcvr_mode == "slow"
+        if not slow:        # at 300..4000 Hz the polling repeat window is far below one cycle: nothing meaningful to demand
+            judge_detector(res, "xcvr.polling", xcfg["polling"], x, T(xcvr.polling_detected), deferred, xcvr="polling")
+        judge_detector(res, "xcvr.ping", xcfg["ping"], x, T(xcvr.ping_detected), deferred, xcvr="ping", quiet=not slow)
+        judge_detector(res, "xcvr.reset", xcfg["reset"], x, T(xcvr.reset_detected), deferred, xcvr="reset", quiet=not slow)
+        if not slow:
+            judge_generator(res, "xcvr.gen", xcvr_f, 1.0e-6, 10.0e-6, T(xcvr.send_polling), T(xcvr.send_signaling),
+                            T(xcvr.drive_electrical_idle), None)
     for mech, detail in deferred[:3]:
         res.violation(mech, detail)
     bins = res.bins
